@@ -122,7 +122,7 @@ bool SeasmartToN2k(const char *buffer, uint32_t &timestamp, tN2kMsg &msg) {
   msg.Clear();
 
   const char *s = buffer;
-  if (strncmp("$PCDIN,", s, 6) != 0) {
+  if (strncmp("$PCDIN,", s, 7) != 0) {
     return false;
   }
   s += 7;
@@ -133,19 +133,19 @@ bool SeasmartToN2k(const char *buffer, uint32_t &timestamp, tN2kMsg &msg) {
     return false;
   }
   s += 2;
-  if (!readNHexByte(s, 2, pgnLow)) {
+  if (!readNHexByte(s, 2, pgnLow) || s[4] != ',') {
     return false;
   }
   s += 5;
   msg.PGN = (pgnHigh << 16) + pgnLow;
 
-  if (!readNHexByte(s, 4, timestamp)) {
+  if (!readNHexByte(s, 4, timestamp) || s[8] != ',') {
     return false;
   }
   s += 9;
 
   uint32_t source;
-  if (!readNHexByte(s, 1, source)) {
+  if (!readNHexByte(s, 1, source) || s[2] != ',') {
     return false;
   }
   msg.Source = source;
@@ -174,6 +174,9 @@ bool SeasmartToN2k(const char *buffer, uint32_t &timestamp, tN2kMsg &msg) {
   }
 
   // Skip the terminating '*' which marks beginning of checksum
+  if (*s != '*') {
+    return false;
+  }
   s += 1;
   uint32_t checksum;
   if (!readNHexByte(s, 1, checksum)) {
